@@ -146,6 +146,11 @@ func genC25(rng *rand.Rand, n int) c25Case {
 		c.Base.Cfg.AttrTTL = 5e9
 	}
 	c.Base.Seed = []string{"file /f0 " + hx(randBytes(rng, rng.Intn(int(min64(c.Max, 20))+1)))}
+	if c.Max <= 4096 && rng.Intn(3) == 0 {
+		// a file that is already larger than the limit (it was there before the limit was configured): shrinking
+		// it to a size still above the limit is refused like any other size above the limit
+		c.Base.Seed = []string{"file /f0 " + hx(randBytes(rng, int(c.Max)+1+rng.Intn(120)))}
+	}
 	around := func() uint64 {
 		switch rng.Intn(6) {
 		case 0:
